@@ -23,15 +23,15 @@ import (
 // ---- C20: interceptors and stats handlers ------------------------------------
 
 type C20Case struct {
-	Kind     int      `json:"kind"`
-	Outcome  string   `json:"outcome"` // ok | herr | cancel | deadline | transport | openfail
-	Server   []string `json:"server"`  // transformation of each server interceptor, in registration order: req | reply | md | err | pass
-	Client   []string `json:"client"`  // client-side chain (composed by the harness into goat's single slot)
-	SStats   int      `json:"sstats"`  // stats handlers on the server
-	CStats   int      `json:"cstats"`  // stats handlers on the client
-	Single   bool     `json:"single"`  // chain of length 1 installed with UnaryInterceptor/StreamInterceptor instead of Chain*
-	RPCs     int      `json:"rpcs"`    // how many RPCs of this shape, sequentially
-	Ser      bool     `json:"ser"`
+	Kind    int      `json:"kind"`
+	Outcome string   `json:"outcome"` // ok | herr | cancel | deadline | transport | openfail
+	Server  []string `json:"server"`  // transformation of each server interceptor, in registration order: req | reply | md | err | pass
+	Client  []string `json:"client"`  // client-side chain (composed by the harness into goat's single slot)
+	SStats  int      `json:"sstats"`  // stats handlers on the server
+	CStats  int      `json:"cstats"`  // stats handlers on the client
+	Single  bool     `json:"single"`  // chain of length 1 installed with UnaryInterceptor/StreamInterceptor instead of Chain*
+	RPCs    int      `json:"rpcs"`    // how many RPCs of this shape, sequentially
+	Ser     bool     `json:"ser"`
 }
 
 func genC20(t *rapid.T) C20Case {
@@ -59,14 +59,14 @@ type tagKey struct{ h int }
 
 // recStats is a recording stats handler.
 type recStats struct {
-	idx    int
-	client bool
-	mu     sync.Mutex
-	next   int
-	events map[int][]string // tag -> event type names in arrival order
-	endErr map[int][]error
+	idx      int
+	client   bool
+	mu       sync.Mutex
+	next     int
+	events   map[int][]string // tag -> event type names in arrival order
+	endErr   map[int][]error
 	untagged []string
-	conn   []string
+	conn     []string
 }
 
 func newRecStats(idx int, client bool) *recStats {
